@@ -974,6 +974,16 @@ func (ctx *RenderContext) EvaluateExpression(node Node) (interface{}, error) {
 				}
 			}
 
+			// _self.name(…) (and any other object that is not a module map): a macro of that
+			// name comes before a built-in function of the same name
+			if macro, ok := ctx.GetMacro(n.name); ok {
+				if macroNode, ok := macro.(*MacroNode); ok {
+					return func(w io.Writer) error {
+						return macroNode.CallMacro(w, ctx, args...)
+					}, nil
+				}
+			}
+
 			// Fallback - try calling it like a regular function
 			if IsDebugEnabled() && debugger.level >= DebugVerbose {
 				LogVerbose("Fallback - calling '%s' as a regular function", n.name)
